@@ -277,8 +277,30 @@ type c10SharedT struct {
 
 var c10SharedBy = map[string]*c10SharedT{} // by (receive limit, options)
 
-func (s *c10Sys) clientMsg(i int) proto.Message {
-	return s.t.newReq("", []byte(fmt.Sprintf("msg-%d", i)), 0)
+func (s *c10Sys) clientMsg(i int) proto.Message { return c10Msg(s.t, i) }
+
+// c10Msg: the i-th client message of a script. Consecutive messages set different fields
+// (s+b, n, b, nothing, …), so that a message that is merged into, or mistaken for, its
+// predecessor does not look the same.
+func c10Msg(t *tSchema, i int) proto.Message {
+	switch i % 4 {
+	case 0:
+		return t.newReq(fmt.Sprintf("s%d", i), []byte(fmt.Sprintf("msg-%d", i)), 0)
+	case 1:
+		return t.newReq("", nil, int32(7+i))
+	case 2:
+		return t.newReq("", []byte(fmt.Sprintf("msg-%d", i)), 0)
+	}
+	return t.newReq("", nil, 0)
+}
+
+// detMarshal: field-number order (dynamic messages otherwise marshal in map order).
+func detMarshal(m proto.Message) []byte {
+	b, err := proto.MarshalOptions{Deterministic: true}.Marshal(m)
+	if err != nil {
+		panic(err)
+	}
+	return b
 }
 
 func c10Scenario(sc c10Script) *e3Scenario {
@@ -328,7 +350,7 @@ func c10Scenario(sc c10Script) *e3Scenario {
 			m := s.clientMsg(i)
 			s.sent = append(s.sent, m)
 			if sc.Front == "grpc" {
-				pb, _ := proto.Marshal(m)
+				pb := detMarshal(m)
 				if sc.Gzip {
 					s.body.buf = append(s.body.buf, wire.GRPCFrame(1, gzipBytes(pb))...)
 				} else {
@@ -533,6 +555,10 @@ func c10Scripts(thorough bool) []c10Script {
 		add(c10Script{Shape: "bidi", Front: front, N: 2, HalfClose: true, R: 1, K: 1, Code: codes.Internal, Msg: "mid", Details: true, MD: "none"})
 		add(c10Script{Shape: "bidi", Front: front, N: 1, HalfClose: false, R: 1, K: 1, Code: ok, MD: "none"})
 		add(c10Script{Shape: "bidi", Front: front, N: 0, HalfClose: true, ReadAll: true, K: 1, Code: ok, MD: "none"})
+		// four messages with different field sets on one stream (a relay that reuses or merges
+		// request messages shows from the third message on)
+		add(c10Script{Shape: "cs", Front: front, N: 4, HalfClose: true, ReadAll: true, K: 1, Code: ok, MD: "none"})
+		add(c10Script{Shape: "bidi", Front: front, N: 4, HalfClose: true, ReadAll: true, K: 1, Code: ok, MD: "none"})
 		// options and compression on the front must be invisible to the back-end and the client
 		add(c10Script{Shape: "bidi", Front: front, N: 2, HalfClose: true, ReadAll: true, K: 2, PingPong: true, Code: ok, MD: "two", Opts: true})
 		add(c10Script{Shape: "cs", Front: front, N: 2, HalfClose: true, ReadAll: true, K: 1, Code: ok, MD: "bin", Opts: true})
@@ -758,7 +784,6 @@ func copyMsg(dst, src proto.Message) {
 
 // sameWire compares two single-field messages by their wire form.
 func sameWire(a, b proto.Message) bool {
-	x, _ := proto.Marshal(a)
-	y, _ := proto.Marshal(b)
+	x, y := detMarshal(a), detMarshal(b)
 	return string(x) == string(y)
 }
